@@ -1,4 +1,6 @@
 import TantivyModel.Proofs.AggAlgebra
+import TantivyModel.Proofs.AggSpecEq
+import TantivyModel.Proofs.AggTrunc
 /-!
 # C14 — Aggregations equal a direct computation and do not depend on partitioning
 
@@ -122,14 +124,11 @@ theorem C14_segment_size_ge_size (field : Field) (missing : Option Int)
   simp only [h, if_true]
   omega
 
-/-- What segment-level truncation can do to a terms node (the documented approximation).
-Proved part: a truncated segment never invents or alters a bucket (each key keeps its exact
-entry or loses it entirely, so merged counts never over-estimate), and `sum_other_doc_count` /
-`doc_count_error_upper_bound` only grow.
-Full statement (checked on every generated case by the harness against the real code, not
-proved): `Σ shown counts + sum_other_doc_count = Σ true counts`, and for `_count desc`
-`true(k) − shown(k) ≤ doc_count_error_upper_bound` for every returned key `k`. -/
-theorem C14_terms_error_bound_partial {V : Type} (p : TermsP) (t : TermsI V) :
+/-- What segment-level truncation does to one segment's terms node: a truncated segment never
+invents or alters a bucket (each key keeps its exact entry or loses it entirely), and
+`sum_other_doc_count` / `doc_count_error_upper_bound` only grow.  The quantitative statement
+over whole partitions is `C14_terms_error_bound`. -/
+theorem C14_terms_truncation_local {V : Type} (p : TermsP) (t : TermsI V) :
     (∀ k, (termsCut p t).map.get k = t.map.get k ∨ (termsCut p t).map.get k = Option.none)
       ∧ t.other ≤ (termsCut p t).other ∧ t.err ≤ (termsCut p t).err := by
   unfold termsCut
@@ -142,6 +141,73 @@ theorem C14_terms_error_bound_partial {V : Type} (p : TermsP) (t : TermsI V) :
     split
     · exact Or.inl rfl
     · exact Or.inr rfl
+
+/-! ### the direct computation -/
+
+/-- **Collecting and finalising is the direct computation**: for every request tree (metrics,
+terms with order / size / min_doc_count / missing, histogram incl. gap filling, extended and
+hard bounds, range, filter, any nesting) and every list of matching documents, the final result
+of the collected tree is `evalAgg` — counts, keys, min, max exactly, sums in the monoid.
+Hypothesis `DocOK`: no document has two values in one bucket of a histogram / range node (see
+`C14_histogram_dup_counterexample` for what the mechanism does otherwise). -/
+theorem C14_finalize_collect_eq_evalAgg (r : Req) (docs : List Doc) (hok : ∀ d ∈ docs, DocOK r d) :
+    finalize r (collect (M := M) r docs) = evalAgg M r docs :=
+  finalize_collect r docs hok
+
+/-- **The chain closed**: `evalAgg = finalize ∘ collect = finalize ∘ fold merge ∘ map collectSeg`
+for every partition into segments / separately searched indexes, every merge schedule and the
+collector's own fold, when no segment truncated a terms aggregation. -/
+theorem C14_direct_equals_partitioned (r : Req) (parts : List (List Doc)) (t : MTree (Inter M r))
+    (hleaves : t.leaves.Perm (parts.map (collectSeg r)))
+    (hno : ∀ p ∈ parts, harvest (M := M) r (collect r p) = collect r p)
+    (hok : ∀ d ∈ parts.flatten, DocOK r d) :
+    finalize r (t.eval (merge r) (empty r)) = evalAgg M r parts.flatten
+      ∧ finalize r (mergeFruits r (parts.map (collectSeg r))) = evalAgg M r parts.flatten := by
+  obtain ⟨h1, h2⟩ := C14_partition_invariant r parts t hleaves hno
+  refine ⟨by rw [h1]; exact finalize_collect r _ hok, ?_⟩
+  rw [← h2, h1]
+  exact finalize_collect r _ hok
+
+/-- without `DocOK` the statement is false, for the model as for the code: a document with the
+values 1 and 2 in one histogram bucket of width 10 is counted twice -/
+theorem C14_histogram_dup_counterexample :
+    finalize (M := Int) (.hist ⟨0, 10, 0, 0, Option.none, Option.none⟩ .none)
+        (collect _ [[(0, [1, 2])]]) = [(0, 2, ())]
+      ∧ evalAgg Int (.hist ⟨0, 10, 0, 0, Option.none, Option.none⟩ .none) [[(0, [1, 2])]] = [(0, 1, ())] := by
+  decide +kernel
+
+/-- **The documented approximation of terms under segment truncation.**  For every partition
+into segments, every `segment_size`, every sub-request: let `H` be the tree the collector
+returns (each segment truncated to its first `segment_size` buckets in request order, then
+merged) and `true k` the number of matching documents having key `k`.  Then
+* no count over-estimates: `H(k) ≤ true k`;
+* for `_count desc`: `true k − H(k) ≤ doc_count_error_upper_bound`;
+* nothing is lost: `Σ_k H(k) + sum_other_doc_count = Σ_k true k` (over any duplicate-free list
+  `U` of keys containing every occurring key). -/
+theorem C14_terms_error_bound (p : TermsP) (sub : Req) (parts : List (List Doc)) (U : List Int)
+    (hU : U.Nodup) (hcov : ∀ part ∈ parts, ∀ d ∈ part, ∀ k ∈ termKeys p d, k ∈ U) :
+    let H : TermsI (Inter M sub) := mergeFruits (.terms p sub) (parts.map (collectSeg (.terms p sub)))
+    let true_ := fun k => (parts.flatten.filter (fun d => (termKeys p d).contains k)).length
+    (∀ k, cnt H.map k ≤ true_ k)
+      ∧ (p.order = .countDesc → ∀ k, true_ k ≤ cnt H.map k + H.err)
+      ∧ sumOver U (cnt H.map) + H.other = sumOver U true_ := by
+  intro H true_
+  have e : H = mergedTerms p sub parts := C14_mergeFruits_eq_fold (.terms p sub) _
+  rw [e]
+  exact terms_error_bound p sub parts U hU hcov
+
+/-- the final stage keeps the books as well: what the `size` cut removes goes to
+`sum_other_doc_count` (buckets below `min_doc_count` are dropped, as in the code) -/
+theorem C14_terms_final_conservation {V : Type} (p : TermsP) (all : List (Int × Nat × V)) (other err : Nat) :
+    sumCounts (termsFinal p all other err).1 + (termsFinal p all other err).2.1
+      = sumCounts (all.filter (fun b => decide (p.minDocCount ≤ b.2.1))) + other := by
+  unfold termsFinal
+  simp only []
+  have h := perm_sumCounts (sortBuckets_perm p.order (all.filter (fun b => decide (p.minDocCount ≤ b.2.1))))
+  rw [← h]
+  conv => rhs; rw [← List.take_append_drop p.size (sortBuckets p.order (all.filter (fun b => decide (p.minDocCount ≤ b.2.1))))]
+  rw [sumCounts_append]
+  omega
 
 /-- merging after a serialisation round trip that is the identity on intermediate trees gives
 the same result (that postcard's round trip *is* the identity is tested by the harness, not
@@ -232,7 +298,13 @@ example : histPos 10 0 (-5) = -1 ∧ histPos 10 3 13 = 1 ∧ histPos 10 3 12 = 0
 example : rangeIdx [0, 10, 20] 10 = 2 ∧ rangeIdx [0, 10, 20] (-1) = 0 ∧ rangeIdx [0, 10, 20] 25 = 3 := by
   decide
 example : (TermsP.ofRequest 0 Option.none Option.none Option.none Option.none Option.none).segSize = 100 := by decide
+example : ∀ d ∈ exDocs1 ++ exDocs2, DocOK exReq d := by
+  intro d hd
+  simp only [exDocs1, exDocs2, List.cons_append, List.nil_append, List.mem_cons, List.not_mem_nil, or_false] at hd
+  rcases hd with rfl | rfl | rfl | rfl <;> (simp only [DocOK, exReq]; decide)
 example : [0, 10, 20].Pairwise (fun a b : Int => a < b) := by decide
+example : ([1, 2, 3] : List Int).Nodup ∧ ∀ d ∈ exTDocs, ∀ k ∈ termKeys ⟨0, Option.none, 2, 2, 1, .countDesc⟩ d, k ∈ [1, 2, 3] := by
+  decide
 /-- a segment with three distinct terms and `segment_size = 2` is truncated: one bucket goes to
 `sum_other_doc_count`, its count is the error bound -/
 example : ((harvest (M := Int) exTReq (collect exTReq exTDocs)).other,
